@@ -52,6 +52,29 @@ def run(E: Engine, rep: Report, tier: str) -> dict:
     has_nodelay = bool(fts) and all(any(is_(x, "Q_p != 'no-delay'") is not None for x in sym.conj_of(l.cond)) for l in fts)
     has_phase = bool(fts) and all(any(is_(x, "Q_a.phase != Q_b") is not None for x in sym.conj_of(l.cond)) for l in fts)
     rep.check(has_nodelay, "FLOW", "phase_jump_buffer|only-if-not-no-delay", "computed under protocol != 'no-delay'", "the phase-jump buffer is no longer restricted to protocols other than 'no-delay' (or the guard disappeared)", where)
+    # ... and the phase that is compared is the phase the slot will carry (the drift-corrected one), up to the time
+    # at which the drift is evaluated
+    stored = [c for c in sym.subterms(arg(slot, 0, "type")) if c[0] == "call" and c[1] == ("name", "Pulse")]
+    xs = [dict(c[3]).get("phase") for c in stored if dict(c[3]).get("phase") is not None]
+    same_phase = bool(fts) and bool(xs)
+    if same_phase:
+        x0 = xs[0]
+        if x0[0] == "call" and x0[1][0] == "name" and x0[1][1] in mn.nested and len(x0[2]) == 1:
+            # the stored phase is computed by a local function (too large to be inlined at that site): use its own
+            # symbolic value with the parameter as the metavariable
+            h = mn.nested[x0[1][1]]
+            par = h.params[0]
+            xpat = sym.subst(S(E, h).ret, lambda t: ("name", "Q_t") if t == ("name", par) else None)
+        else:
+            xpat = sym.subst(x0, lambda t: (t[0], t[1], (("name", "Q_t"),), t[3]) if len(t) == 4 and t[0] == "call" and isinstance(t[1], tuple) and len(t[1]) == 3 and t[1][0] == "attr" and t[1][2] == "calc_phase_drift" else None)
+        for l in fts:
+            hit = False
+            for x in sym.conj_of(l.cond):
+                m = is_(x, "Q_a.phase != Q_b")
+                if m is not None and m["Q_a"] == full["Q_lp"]:
+                    hit = hit or sym.match(xpat, m["Q_b"]) is not None
+            same_phase = same_phase and hit
+    rep.check(same_phase, "FLOW", "phase_jump_buffer|compares-the-phase-that-is-scheduled", "the last pulse's phase is compared with the phase the new slot carries (drift-corrected when a correction applies)", "the phase-jump buffer is decided on a phase other than the one stored in the new slot (e.g. the nominal pulse.phase although the slot carries the drift-corrected phase): two consecutive pulses of different scheduled phase can be left without the phase-jump time", where)
     rep.check(has_phase, "FLOW", "phase_jump_buffer|only-if-phase-differs", "computed only when the phase changes", "the phase-jump buffer is no longer conditioned on a phase change", where)
     # delay = max(conflict delay, buffer)
     ok = False
